@@ -37,7 +37,7 @@ def run(tier, seed, flavour="plain", prop="C12"):
     od = core.run_dir(prop, tier)
     paths = core.build(targets(flavour))
     res = core.run_sharded([{"name": "c12_solid", "binary": paths["c12_solid"], "nshards": core.NCPU, "out": od,
-                             "args": ["--seed", str(seed), "--tier", tier] + core.deep(tier, materials=360000),
+                             "args": ["--seed", str(seed), "--tier", tier] + core.deep(tier, materials=360000) + core.boost(tier, flavour, materials=30000),
                              "env": core.SAN_ENV if flavour == "san" else None}], timeout=3600)
     V.absorb(res)
     m = core.merge_summaries(res)
